@@ -320,6 +320,16 @@ class Funcs:
 def snapshot(data):
     """canonical content of the data containers (floats bit-exact)"""
     def c(v):
+        if isinstance(v, EqRaises):
+            return ["itemobj", c(v._d)]
+        if isinstance(v, PlainObj):
+            return ["obj", c(vars(v))]
+        if type(v).__module__ == "numpy":
+            if hasattr(v, "tolist") and getattr(v, "ndim", 0) > 0:
+                return ["array"] + [c(x) for x in v.tolist()]
+            v = v.item()
+        if isinstance(v, list):
+            return ["list"] + [c(x) for x in v]
         if isinstance(v, dict):
             return {repr(k): c(x) for k, x in sorted(v.items(), key=lambda kv: repr(kv[0]))}
         if isinstance(v, bool):
@@ -336,10 +346,62 @@ def snapshot(data):
     return {k: c(v) for k, v in data.items() if k != "f"}
 
 
+class PlainObj:
+    """a plain object container: attributes"""
+
+
+class EqRaises:
+    """an item container whose == raises (nothing in the manager may compare container objects)"""
+    def __init__(self, d):
+        self._d = dict(d)
+
+    def __getitem__(self, k):
+        return self._d[k]
+
+    def __setitem__(self, k, v):
+        self._d[k] = v
+
+    def __eq__(self, other):
+        raise RuntimeError("container objects are not to be compared")
+
+    __hash__ = object.__hash__
+
+
+class EqOdd(EqRaises):
+    """an item container whose == returns a (truthy) non-bool"""
+    def __eq__(self, other):
+        return "maybe"
+
+    def __ne__(self, other):
+        return "maybe"
+
+    __hash__ = object.__hash__
+
+
 def mk_data(desc):
-    """["d", [[key literal, desc], ...]] -> dict ; ["v", literal] -> value"""
-    if desc[0] == "d":
-        return {mk_lit(k): mk_data(v) for k, v in desc[1]}
+    """["d", [[key literal, desc], ...]] -> dict ; ["v", literal] -> value; other container kinds:
+    ["ad", pairs] AttrDict, ["obj", pairs] plain object, ["list", [lit]], ["np", [lit]] numpy array,
+    ["eqraise", pairs], ["eqodd", pairs]"""
+    k = desc[0]
+    if k == "d":
+        return {mk_lit(a): mk_data(v) for a, v in desc[1]}
+    if k == "ad":
+        from xdeps.utils import AttrDict
+        return AttrDict({mk_lit(a): mk_data(v) for a, v in desc[1]})
+    if k == "obj":
+        o = PlainObj()
+        for a, v in desc[1]:
+            setattr(o, mk_lit(a), mk_data(v))
+        return o
+    if k == "list":
+        return [mk_lit(x) for x in desc[1]]
+    if k == "np":
+        import numpy as np
+        return np.array([float(mk_lit(x)) for x in desc[1]])
+    if k == "eqraise":
+        return EqRaises({mk_lit(a): mk_data(v) for a, v in desc[1]})
+    if k == "eqodd":
+        return EqOdd({mk_lit(a): mk_data(v) for a, v in desc[1]})
     return mk_lit(desc[1])
 
 
@@ -550,6 +612,20 @@ def run_multistep_case(case):
 
     for step, op in enumerate(case["ops"]):
         kind = op[0]
+        if kind == "iter":
+            # iter_expr_tasks_owner of one container of the source: exactly the definitions rooted in it
+            m, ns = srcs[op[1]]
+            want = [(str(build(t, ns)), str(build(e, ns))) for t, e in case["sources"][op[1]]["defs"] if root_and_depth(t)[0] == op[2]]
+            try:
+                got = list(m.iter_expr_tasks_owner(m.containers[op[2]]))
+            except Exception as ex:  # noqa
+                res["fail"] = {"what": "iter_expr_tasks_owner raised", "step": step, "op": op, "error": f"{type(ex).__name__}: {ex}"}
+                return res
+            if sorted(got) != sorted(want):
+                res["fail"] = {"what": "iter_expr_tasks_owner does not yield exactly the definitions rooted in the container",
+                               "step": step, "op": op, "got": got, "expected": want}
+                return res
+            continue
         if kind == "load":
             m, ns = srcs[op[1]]
             err = safe(lambda: mt.load(m.dump(), overwrite=op[2]))
